@@ -32,6 +32,7 @@
 package c14
 
 import (
+	"errors"
 	"bytes"
 	"crypto/subtle"
 	"encoding/binary"
@@ -1010,12 +1011,22 @@ type event struct {
 	payload []byte
 }
 
-type recorder struct{ evs []event }
+type recorder struct {
+	evs       []event
+	failEvery int // > 0: the write of every failEvery-th packet returns an error
+}
 
 func (rc *recorder) write(h *rtp.Header, payload []byte, _ interceptor.Attributes) (int, error) {
 	rc.evs = append(rc.evs, event{hdr: h.Clone(), payload: append([]byte(nil), payload...)})
+	if rc.failEvery > 0 && len(rc.evs)%rc.failEvery == 0 {
+		// a transient error of the next writer: this packet was handed over (recorded); the other
+		// packets of the batch, repair packets included, are still owed
+		return 0, errNextWriter
+	}
 	return h.MarshalSize() + len(payload), nil
 }
+
+var errNextWriter = errors.New("verif: next writer fails this packet")
 
 type icStream struct {
 	info   *interceptor.StreamInfo
@@ -1050,9 +1061,16 @@ func runInterceptor(x *ctx) {
 		return
 	}
 	ns := r.Range(1, 3)
+	failing := r.Chance(0.25)
+	if failing {
+		c.Add("interceptor_cases_whose_next_writer_fails_some_packets", 1)
+	}
 	streams := make([]*icStream, ns)
 	for i := range streams {
 		s := &icStream{rec: &recorder{}}
+		if failing {
+			s.rec.failEvery = r.Pick(2, 3, 5, 7, 11)
+		}
 		s.tr.fecPT = uint8(r.Range(1, 127))
 		s.tr.fecSSRC = r.U32() | 1
 		s.info = &interceptor.StreamInfo{
